@@ -359,9 +359,9 @@ var defaults = map[string]string{
 
 var slotMutations = map[string][]string{
 	"REQS": {`["nope"]`, `["sleep(5)", "r1"]`, `["sleep(5)"]`, `["r1(x)"]`, `["r1(2"]`, `["r1)"]`, `["r1(1,y)"]`, `["r1(-1)"]`, `["r1(0)"]`, `["r1()"]`, `["r1(1,2,3)"]`, `[]`, `[""]`, `["("]`, `["r1(99999999999999999999)"]`, `["r1", "sleep(x)"]`, `["r1 (2)"]`},
-	"PREMAP": {"source.users[0].id", "source.users[next].id", "source.users[rand].id", "source.users[last].id", "source.users[-1].id", "source.users[abc].id", "source.users[].id", "source.users[99].id",
+	"PREMAP": {"source.users[0].id", "source.users[next].id", "source.users[rand].id", "source.users[last].id", "source.users[-1].id", "source.users[-2].id", "source.users[-3].id", "source.users[-5].id", "source.users[-100].id", "source.users[1].id", "source.users[2].id", "source.users[5].id", "source.users[1000000].id", "source.users[abc].id", "source.users[].id", "source.users[99].id",
 		"source.nosuch[next].id", "source.users", "source.users[next]", "source", "", ".", "source.users[next].id.deeper", "randString(-5)", "randString(100000)", "randInt(5,5)", "randInt(a,b)", "randInt(1,2,3)", "uuid(1)", "randString(", "source.vars.a[0]"},
-	"HDRMAP":   {"X-Short|substr(100)", "X-Short|substr(5,2)", "X-Short|substr(a)", "X-Short|nomod", "X-Short|substr(-100)", "X-Short|substr(1,-100)", "X-Short|substr()", "X-Short|replace(a)", "X-Short|", "|upper", "X-Short|upper|substr(1,100)|lower", "X-Short|substr(2,1)"},
+	"HDRMAP":   {"X-Short|substr(100)", "X-Short|substr(5,2)", "X-Short|substr(a)", "X-Short|nomod", "X-Short|substr(-100)", "X-Short|substr(1,-100)", "X-Short|substr(-10,-8)", "X-Short|substr(-100,-50)", "X-Short|substr(-1,-100)", "X-Short|substr(100,200)", "X-Short|substr(-3)", "X-Short|substr(0,0)", "X-Short|substr()", "X-Short|replace(a)", "X-Short|", "|upper", "X-Short|upper|substr(1,100)|lower", "X-Short|substr(2,1)"},
 	"JSONPATH": {"$..[", "$.x[", "", "$", "tok", "$.tok.deeper.more", "$[0]"},
 	"XPATH":    {"count(//a)", "1+1", "//a[", "", "string(//title)", "//*", "boolean(1)"},
 	"BODY":     {"{{.missing.x}}", "{{", "{{ index .source 5 }}", "{{randInt 5 1}}", "{{randString -1}}", "{{randInt 5 5}}", "{{uuid 1 2}}", "{{template \\\"x\\\"}}", "{{.request.r1.postprocessor.tok.deeper}}"},
